@@ -101,14 +101,78 @@ def cases(ctx):
         o = rng.choice(triples)
         forged.append(('other-addr', o[4] if o[4] != addr else addr[:-1] + 'x', sig, b))
         forged.append(('short', addr, sig[:64], b))
+        # addresses that carry the signer's hash160 but are not the signer's P2PKH address on this network
+        import base58check
+        raw = base58check.b58decode(addr.encode())
+        h160 = raw[1:21]
+        def b58c(pl): return base58check.b58encode(pl + hashlib.sha256(hashlib.sha256(pl).digest()).digest()[:4]).decode()
+        forged.append(('same-hash-p2sh', b58c((b'\x05' if net == 'mainnet' else b'\xc4') + h160), sig, b))
+        forged.append(('same-hash-other-net', b58c((b'\x6f' if net == 'mainnet' else b'\x00') + h160), sig, b))
+        forged.append(('same-hash-bad-checksum', base58check.b58encode(raw[:21] + bytes([raw[21] ^ 1]) + raw[22:]).decode(), sig, b))
+        forged.append(('same-hash-segwit', 'bc1q' + 'q' * 38, sig, b))
         for kind, a, s, bb in forged:
             ctx.count('verify-' + kind.split('-')[0])
             def spec(ans, net=net, a=a, s=s, bb=bb):
+                if 'disagrees' in ans: return ('s:raw libsecp256k1-recovery-disagrees-with-the-implementation', 'ok')
                 return (f's:msg_accepts {np(net)} {sh(a)} {hx(s)} {hx(bb)}', 'ok 1' if ans == 'ok 1' else 'ok 0')
             yield Case(f'msg_verify {hx(mg)} {np(net)} {sh(a)} {hx(s)} {hx(bb)}', 'ms', nontrivial=kind != 'valid', tag='verify-' + kind, spec=spec)
 
 
 KEYS = {}
+
+
+def synth_cases(ctx, mg):
+    """valid triples synthesized without a private key: choose (r, s), recover the key with libsecp256k1, take its
+    address — reaches values a signer never produces (tiny r with x = r + n, tiny s) and their out-of-range aliases"""
+    import coincurve
+    from bitcoinutils.ripemd160 import ripemd160
+    import base58check
+    rng = ctx.rng
+    P = 0xFFFFFFFFFFFFFFFFFFFFFFFFFFFFFFFFFFFFFFFFFFFFFFFFFFFFFFFEFFFFFC2F
+    def addr_of(ser, net):
+        pl = {'mainnet': b'\x00', 'testnet': b'\x6f'}[net] + ripemd160(hashlib.sha256(ser).digest())
+        return base58check.b58encode(pl + hashlib.sha256(hashlib.sha256(pl).digest()).digest()[:4]).decode()
+    out = []
+    for _ in range(ctx.n(6, 200)):
+        net = rng.choice(NETS); b = G.rbytes(rng, rng.randrange(1, 40)).hex().encode()
+        from bitcoinutils.utils import add_magic_prefix
+        digest = hashlib.sha256(hashlib.sha256(add_magic_prefix(b.decode())).digest()).digest()
+        kind = rng.choice(['x=r+n', 'small-s', 'plain'])
+        for attempt in range(200):
+            if kind == 'x=r+n':
+                r = rng.randrange(1, P - N); recid = 2 + rng.randrange(2)        # R.x = r + n (< p)
+            else:
+                r = rng.randrange(1, N); recid = rng.randrange(2)
+            s = rng.randrange(1, 2 ** 120) if kind == 'small-s' else rng.randrange(1, N)
+            c = rng.random() < 0.5
+            try:
+                rec = coincurve.PublicKey.from_signature_and_message(r.to_bytes(32, 'big') + s.to_bytes(32, 'big') + bytes([recid]), digest, hasher=None)
+            except Exception:
+                continue
+            a = addr_of(rec.format(compressed=c), net)
+            hdr = 27 + recid + (4 if c else 0)
+            sig = bytes([hdr]) + r.to_bytes(32, 'big') + s.to_bytes(32, 'big')
+            out.append((f'synth-{kind}', net, a, sig, b))
+            if kind == 'x=r+n':      # the same point written with the out-of-range r' = r + n and a header that says x = r'
+                out.append(('synth-r+n-alias', net, a, bytes([hdr - 2]) + (r + N).to_bytes(32, 'big') + s.to_bytes(32, 'big'), b))
+            if kind == 'small-s':    # s' = s + n is congruent but out of range
+                out.append(('synth-s+n-alias', net, a, sig[:33] + (s + N).to_bytes(32, 'big'), b))
+            out.append(('synth-s=0', net, a, sig[:33] + bytes(32), b))
+            break
+    for kind, net, a, s, bb in out:
+        ctx.count('verify-' + kind)
+        def spec(ans, net=net, a=a, s=s, bb=bb):
+            if 'disagrees' in ans: return ('s:raw libsecp256k1-recovery-disagrees-with-the-implementation', 'ok')
+            return (f's:msg_accepts {np(net)} {sh(a)} {hx(s)} {hx(bb)}', 'ok 1' if ans == 'ok 1' else 'ok 0')
+        yield Case(f'msg_verify {hx(mg)} {np(net)} {sh(a)} {hx(s)} {hx(bb)}', 'ms', nontrivial=True, tag='verify-' + kind, spec=spec)
+
+
+_cases_base = cases
+
+
+def cases(ctx):  # noqa: F811
+    yield from _cases_base(ctx)
+    yield from synth_cases(ctx, magic())
 
 
 def impl(op, a, ctx):
